@@ -424,8 +424,12 @@ func genValue(r *rng, t reflect.Type, o genOpts) string {
 			if !o.jsonSafe {
 				cs = append(cs, reflect.TypeOf([]byte{}))
 			}
+			if o.cbor && !o.tagged {
+				// the untagged atlas configurations still register one type under tag 0
+				cs = append(cs, reflect.TypeOf(TrBytes{}))
+			}
 			if o.tagged && o.cbor {
-				cs = append(cs, reflect.TypeOf(Inner{}), reflect.TypeOf(TrNum(0)), reflect.TypeOf(TrBytes{}), reflect.TypeOf(TrSq{}), reflect.TypeOf(TrOpt{}), reflect.TypeOf(TrW{}), reflect.TypeOf(TrN{}), reflect.TypeOf(Digest{}))
+				cs = append(cs, reflect.TypeOf(Inner{}), reflect.TypeOf(TrNum(0)), reflect.TypeOf(TrBytes{}), reflect.TypeOf(TrSq{}), reflect.TypeOf(TrOpt{}), reflect.TypeOf(TrW{}), reflect.TypeOf(TrN{}), reflect.TypeOf(Digest{}), reflect.TypeOf(TwoMaps{}))
 			}
 		}
 		ct := cs[r.intn(len(cs))]
